@@ -28,20 +28,20 @@ inductive RType where
 deriving DecidableEq, Repr
 
 def RType.upper : RType → Str
-  | .annotation => "ANNOTATION".toList
-  | .data => "DATA".toList
-  | .key => "KEY".toList
-  | .text => "TEXT".toList
-  | .resource => "RESOURCE".toList
-  | .dataset => "DATASET".toList
+  | .annotation => ['A', 'N', 'N', 'O', 'T', 'A', 'T', 'I', 'O', 'N']
+  | .data => ['D', 'A', 'T', 'A']
+  | .key => ['K', 'E', 'Y']
+  | .text => ['T', 'E', 'X', 'T']
+  | .resource => ['R', 'E', 'S', 'O', 'U', 'R', 'C', 'E']
+  | .dataset => ['D', 'A', 'T', 'A', 'S', 'E', 'T']
 
 def RType.lower : RType → Str
-  | .annotation => "annotation".toList
-  | .data => "data".toList
-  | .key => "key".toList
-  | .text => "text".toList
-  | .resource => "resource".toList
-  | .dataset => "dataset".toList
+  | .annotation => ['a', 'n', 'n', 'o', 't', 'a', 't', 'i', 'o', 'n']
+  | .data => ['d', 'a', 't', 'a']
+  | .key => ['k', 'e', 'y']
+  | .text => ['t', 'e', 'x', 't']
+  | .resource => ['r', 'e', 's', 'o', 'u', 'r', 'c', 'e']
+  | .dataset => ['d', 'a', 't', 'a', 's', 'e', 't']
 
 def allTypes : List RType := [.annotation, .data, .key, .text, .resource, .dataset]
 
@@ -53,11 +53,11 @@ inductive Q where
   | mk (optional : Bool) (ty : RType) (name : Option Str) (cs : List Cn) (subs : List Q)
 deriving Repr
 
-def kSELECT : Str := "SELECT".toList
-def kADD : Str := "ADD".toList
-def kDELETE : Str := "DELETE".toList
-def kOPTIONAL : Str := "OPTIONAL".toList
-def kWHERE : Str := "WHERE".toList
+def kSELECT : Str := ['S', 'E', 'L', 'E', 'C', 'T']
+def kADD : Str := ['A', 'D', 'D']
+def kDELETE : Str := ['D', 'E', 'L', 'E', 'T', 'E']
+def kOPTIONAL : Str := ['O', 'P', 'T', 'I', 'O', 'N', 'A', 'L']
+def kWHERE : Str := ['W', 'H', 'E', 'R', 'E']
 
 /-- `s.trim_end_matches(';')` -/
 def trimEndSemis (s : Str) : Str := (s.reverse.dropWhile (· = ';')).reverse
@@ -94,23 +94,44 @@ def dropByte (q : Str) : Out Str :=
   | c :: r => if c.toNat < 128 then .ok r else .panic "byte index 1 is not a char boundary"
   | [] => .panic "byte index 1 is out of bounds"
 
+/-- `parse_qualifier` -/
+def parseOptional (q : Str) : Bool × Str :=
+  if firstWord q = kOPTIONAL then (true, trimStart (q.drop 8)) else (false, q)
+
+/-- the result type and `parse_name`; what follows the name -/
+def parseTypeName (q : Str) : Option (RType × Option Str × Str) :=
+  match parseType (firstWord q) with
+  | none => none
+  | some ty =>
+    match parseName (trimStart (q.drop ty.upper.length)) with
+    | (name, r) => some (ty, name, r)
+
+/-- the head of `parse_select`: `SELECT`, `parse_qualifier`, the result type, `parse_name`; what follows the name -/
+def parseHead (q0 : Str) : Option (Bool × RType × Option Str × Str) :=
+  match parseOptional (trimStart (q0.drop 6)) with
+  | (optional, q) =>
+    match parseTypeName q with
+    | none => none
+    | some (ty, name, r) => some (optional, ty, name, r)
+
+/-- the `match` on the word after the name: `WHERE` is consumed, a brace, a bar or the end are left, anything else is an error -/
+def whereStep (q : Str) : Option Str :=
+  let w := firstWord q
+  if w = kWHERE then some (trimStart (q.drop 5))
+  else if w = ['{'] ∨ w = ['}'] ∨ w = ['|'] ∨ w = [] then some q
+  else none
+
 mutual
 /-- `parse_select`, entered with the text at `SELECT` -/
 def parseSelect (E : Ext) : Nat → Str → Out (Q × Str)
   | 0, _ => .err "fuel"
   | f + 1, q0 =>
-    let q := trimStart (q0.drop 6)
-    -- `parse_qualifier`
-    let optional := firstWord q = kOPTIONAL
-    let q := if optional then trimStart (q.drop 8) else q
-    match parseType (firstWord q) with
+    match parseHead q0 with
     | none => .err "syntax"
-    | some ty =>
-      let q := trimStart (q.drop ty.upper.length)
-      let (name, q) := parseName q
-      let w := firstWord q
-      if w = kWHERE ∨ w = ['{'] ∨ w = ['}'] ∨ w = ['|'] ∨ w = [] then
-        let q := if w = kWHERE then trimStart (q.drop 5) else q
+    | some (optional, ty, name, q) =>
+      match whereStep q with
+      | none => .err "syntax"
+      | some q =>
         match cnLoop E (q.length + 1) q [] with
         | .ok (cs, q) =>
           -- `parse_subqueries`
@@ -122,7 +143,6 @@ def parseSelect (E : Ext) : Nat → Str → Out (Q × Str)
           else .ok (.mk optional ty name cs [], q)
         | .err m => .err m
         | .panic m => .panic m
-      else .err "syntax"
 /-- the `loop` of `parse_subqueries`, entered with the text at `{` or `|` -/
 def subLoop (E : Ext) : Nat → Str → List Q → Out (List Q × Str)
   | 0, _, _ => .err "fuel"
@@ -175,10 +195,15 @@ def optAll {α} : List (Option α) → Option (List α)
 def cnLines (showI : Int → Str) (cs : List Cn) : Option Str :=
   (optAll (cs.map (printCn showI))).map (fun ts => (ts.map (fun t => '\t' :: t ++ ['\n'])).flatten)
 
+/-- the name as printed: ` ?name` or nothing -/
+def nameText (name : Option Str) : Str :=
+  match name with
+  | some n => [' ', '?'] ++ n
+  | none => []
+
 /-- what `to_string` writes before the WHERE clause -/
 def headText (optional : Bool) (ty : RType) (name : Option Str) : Str :=
-  kSELECT ++ [' '] ++ (if optional then kOPTIONAL ++ [' '] else []) ++ ty.upper ++
-    (match name with | some n => [' ', '?'] ++ n | none => [])
+  kSELECT ++ [' '] ++ (if optional then kOPTIONAL ++ [' '] else []) ++ ty.upper ++ nameText name
 
 def ensureNewline (s : Str) : Str := if s.getLast? = some '\n' then s else s ++ ['\n']
 
